@@ -1033,3 +1033,133 @@ Lemma fixed_on_witnesses :
   print_amount_fixed (mkA min64 1) = t "-922337203685477580.8" /\
   parse_amount_fixed (t "-922337203685477580.8") = Some (mkA min64 1).
 Proof. vm_compute. repeat split. Qed.
+
+(* ------------------------------------------------------------------------------------------ *)
+(* N. MinimalString                                                                            *)
+(* ------------------------------------------------------------------------------------------ *)
+Lemma trz_app a b : trim_right_zeros (a ++ b) =
+  match trim_right_zeros b with [] => trim_right_zeros a | t => a ++ t end.
+Proof.
+  induction a as [|x a IH]; cbn [app trim_right_zeros].
+  - destruct (trim_right_zeros b); reflexivity.
+  - rewrite IH. destruct (trim_right_zeros b) as [|y t] eqn:E; [reflexivity|].
+    destruct a; reflexivity.
+Qed.
+
+Lemma trz_decomp f : exists k, f = trim_right_zeros f ++ zeros k.
+Proof.
+  induction f as [|x f [k Hk]]; cbn [trim_right_zeros].
+  - exists 0%nat. reflexivity.
+  - destruct (trim_right_zeros f) as [|y t] eqn:E.
+    + destruct (Byte.eqb x b_zero) eqn:Ex.
+      * apply byte_eqb_eq in Ex. subst x. exists (S k). cbn [app] in *. rewrite Hk at 1. reflexivity.
+      * exists k. cbn [app] in *. rewrite Hk at 1. reflexivity.
+    + exists k. cbn [app] in *. rewrite Hk at 1. reflexivity.
+Qed.
+
+Lemma trz_last f : trim_right_zeros f = [] \/ Byte.eqb (last (trim_right_zeros f) x00) b_zero = false.
+Proof.
+  induction f as [|x f IH]; cbn [trim_right_zeros]; [left; reflexivity|].
+  destruct (trim_right_zeros f) as [|y t] eqn:E.
+  - destruct (Byte.eqb x b_zero) eqn:Ex; [left; reflexivity|right; exact Ex].
+  - right. destruct IH as [IH|IH]; [discriminate|]. exact IH.
+Qed.
+
+Definition minimal_frac (f : option bytes) : option bytes :=
+  match f with
+  | None => None
+  | Some f => match trim_right_zeros f with [] => None | t => Some t end
+  end.
+
+Lemma contains_dot_nodot s : nodot s = true -> contains_dot s = false.
+Proof.
+  induction s as [|x s IH]; cbn; auto. intros H. apply andb_true_iff in H. destruct H as [H1 H2].
+  destruct (Byte.eqb x b_dot); [discriminate|]. cbn. auto.
+Qed.
+
+Lemma last_app_cons (a : bytes) x t d : last (a ++ x :: t) d = last (x :: t) d.
+Proof. induction a as [|y a IH]; [reflexivity|]. cbn [app]. rewrite <- IH. destruct (a ++ x :: t) eqn:E; [destruct a; discriminate|reflexivity]. Qed.
+
+Lemma minimal_of_mk_text neg i f : good_text i f ->
+  minimal_of_text (mk_text neg i f) = mk_text neg i (minimal_frac f).
+Proof.
+  intros [Hi Hf]. unfold minimal_of_text. destruct f as [f|]; cbn [minimal_frac].
+  - assert (C : contains_dot (mk_text neg i (Some f)) = true).
+    { unfold mk_text, contains_dot. rewrite !existsb_app. cbn [frac_text existsb]. rewrite byte_eqb_refl.
+      cbn [orb]. rewrite !orb_true_r. reflexivity. }
+    rewrite C. unfold mk_text. cbn [frac_text]. rewrite app_assoc. rewrite trz_app.
+    assert (D : trim_right_zeros (b_dot :: f) = b_dot :: trim_right_zeros f).
+    { cbn [trim_right_zeros]. destruct (trim_right_zeros f); reflexivity. }
+    rewrite D. rewrite <- app_assoc.
+    destruct (trim_right_zeros f) as [|y t] eqn:E.
+    + unfold trim_suffix_dot. cbn [frac_text].
+      destruct (sign_text neg ++ i ++ [b_dot]) eqn:E2; [destruct (sign_text neg); destruct i; discriminate|].
+      rewrite <- E2. rewrite app_assoc, last_last, removelast_last, byte_eqb_refl, app_nil_r. reflexivity.
+    + unfold trim_suffix_dot. cbn [frac_text].
+      destruct (sign_text neg ++ i ++ b_dot :: y :: t) eqn:E2; [destruct (sign_text neg); destruct i; discriminate|].
+      rewrite <- E2. rewrite app_assoc, last_app_cons.
+      assert (L : Byte.eqb (last (b_dot :: y :: t) x00) b_dot = false).
+      { change (last (b_dot :: y :: t) x00) with (last (y :: t) x00).
+        destruct (trz_decomp f) as [k Hk]. rewrite E in Hk.
+        assert (A : all_digits (y :: t) = true).
+        { destruct Hf as [_ Hd]. rewrite Hk, all_digits_app in Hd. apply andb_true_iff in Hd. apply Hd. }
+        assert (In (last (y :: t) x00) (y :: t)) as Hin.
+        { destruct (@exists_last _ (y :: t)) as (l' & z & ->); [discriminate|]. rewrite last_last. apply in_or_app. right. left. reflexivity. }
+        unfold all_digits in A. rewrite forallb_forall in A. apply (is_digit_not_special _ (A _ Hin)). }
+      rewrite L. reflexivity.
+  - unfold mk_text. cbn [frac_text]. rewrite app_nil_r.
+    rewrite contains_dot_nodot; [reflexivity|]. apply nodot_sign_digits, Hi.
+Qed.
+
+Lemma minimal_frac_good i f : good_text i f -> good_text i (minimal_frac f).
+Proof.
+  intros [Hi Hf]. split; [exact Hi|]. destruct f as [f|]; cbn [minimal_frac]; [|exact I].
+  destruct (trim_right_zeros f) as [|y t] eqn:E; [exact I|].
+  split; [discriminate|]. destruct (trz_decomp f) as [k Hk]. rewrite E in Hk.
+  destruct Hf as [_ Hd]. rewrite Hk, all_digits_app in Hd. apply andb_true_iff in Hd. apply Hd.
+Qed.
+
+(* the digits dropped are zeros: the value is unchanged *)
+Lemma minimal_frac_value neg i f : exists k,
+  text_value neg i f = text_value neg i (minimal_frac f) * pow10 k /\
+  length (frac_digits f) = (length (frac_digits (minimal_frac f)) + k)%nat.
+Proof.
+  unfold text_value. destruct f as [f|]; cbn [minimal_frac frac_digits].
+  - destruct (trz_decomp f) as [k Hk]. exists k.
+    assert (V : value_of_digits (i ++ f) = value_of_digits (i ++ trim_right_zeros f) * pow10 k).
+    { rewrite Hk at 1. rewrite app_assoc, vod_app, vod_zeros, length_zeros. lia. }
+    assert (L : length f = (length (trim_right_zeros f) + k)%nat).
+    { rewrite Hk at 1. rewrite app_length, length_zeros. reflexivity. }
+    destruct (trim_right_zeros f) as [|y t] eqn:E; cbn [frac_digits]; rewrite V; split; auto; destruct neg; lia.
+  - exists 0%nat. rewrite pow10_0. split; [destruct neg; lia|reflexivity].
+Qed.
+
+Lemma minimal_string_fixed_spec a : amount_ok a = true ->
+  matches_amount_pattern (minimal_string_fixed a) = true /\
+  Qeq (toQ (amount_of (minimal_string_fixed a))) (toQ a) /\
+  (snd (value_of (minimal_string_fixed a)) = 0%nat \/
+   Byte.eqb (last (minimal_string_fixed a) x00) b_zero = false).
+Proof.
+  intros H. unfold minimal_string_fixed. rewrite (print_fixed_shape a H).
+  pose proof (print_shape_good (val a) (exp a)) as [G L].
+  rewrite (minimal_of_mk_text _ _ _ G).
+  pose proof (minimal_frac_good _ _ G) as G'.
+  split; [apply matches_mk_text, G'|].
+  split.
+  - rewrite amount_of_mk_text by exact G'. apply toQ_eq_iff. cbn [val exp].
+    destruct (minimal_frac_value (val a <? 0) (digits_of (Z.abs (val a) / pow10 (exp a))) (print_frac (val a) (exp a)))
+      as (k & V & Lk).
+    rewrite print_shape_value in V. rewrite L in Lk.
+    set (T := text_value _ _ (minimal_frac _)) in *. set (e' := length (frac_digits (minimal_frac _))) in *.
+    clearbody T e'. rewrite Lk, pow10_add, V. ring.
+  - rewrite value_of_mk_text by exact G'. cbn [snd].
+    unfold print_frac. destruct (Nat.eqb (exp a) 0); cbn [minimal_frac frac_digits]; [left; reflexivity|].
+    set (f := pad_left (exp a) (digits_of (Z.abs (val a) mod pow10 (exp a)))).
+    destruct (trz_last f) as [E|E].
+    + rewrite E. left. reflexivity.
+    + destruct (trim_right_zeros f) as [|y t] eqn:E2; [left; reflexivity|]. right.
+      unfold mk_text. cbn [frac_text]. rewrite app_assoc, last_app_cons. exact E.
+Qed.
+
+Lemma minimal_string_shipped_eq_fixed a : amount_ok a = true -> val a <> min64 -> minimal_string a = minimal_string_fixed a.
+Proof. intros H Hm. unfold minimal_string, minimal_string_fixed. rewrite (print_shipped_eq_fixed a H Hm). reflexivity. Qed.
